@@ -374,7 +374,7 @@ static void lay_case(uint64_t idx, void *vctx)
             }
         }
         for (int i = 0; i < n; i++) desc[i] = src[i];
-        for (int bgi = 0; bgi < 2 && !vf_failed(); bgi++) {
+        for (int bgi = (per == 1 ? (block & 1) : 0); bgi < (per == 1 ? (block & 1) + 1 : 2) && !vf_failed(); bgi++) {   /* exhaustive sweeps: one background per block */
             timg s, d; int bg = bgi ? 0xff : 0x00;
             ti_alloc(&s, 32, 2 + n + 2, 2, 0x33, 0);
             for (int i = 0; i < n; i++) put_px(ti_row(&s, 1), 32, 2 + i, src[i], 0xffffffffu);
@@ -523,7 +523,7 @@ static void lay_case(uint64_t idx, void *vctx)
     }
     acc_flush();
     if (!vf_in_confirm) {
-        uint64_t per = (V->route == R_STORE8 && c->vm != VM_FULL) || V->route == R_STOREF ? 6 : V->route == R_SELF ? 4 : V->route == R_STORE8 ? 2 : 1;
+        uint64_t per = (V->route == R_STORE8 && c->vm != VM_FULL) || V->route == R_STOREF ? 6 : V->route == R_SELF ? 4 : 1;
         vf_count_eval((uint64_t)N * per);
         vf_count_nontrivial(nontriv * per);
         ST_ADD(conv[V->route], (uint64_t)N * per); ST_ADD(by_mode[mode], (uint64_t)N * per); ST_ADD(by_acc[acc], (uint64_t)N * per);
@@ -989,14 +989,15 @@ int main(int argc, char **argv)
     st = mmap(NULL, sizeof *st, PROT_READ | PROT_WRITE, MAP_SHARED | MAP_ANONYMOUS, -1, 0);
     memset(st, 0, sizeof *st);
     int th = vf_is_thorough();
+    c10_tune_malloc();
     vf_rule = "E1: every case is one run of pixel values of one format pushed through one route (F->a8r8g8b8, a8r8g8b8->F, F->F, F->rgba_float, rgba_float->F) by a "
               "PIXMAN_OP_SRC composite, with one access mode (scanline / integer-translation transform / x-reflection transform = per-pixel readers), direct or "
               "scrambled-accessor storage, one x offset, one implementation chain; every destination and source buffer is compared in full against the reference codec "
               "(defined bits of the addressed pixels; all bits elsewhere). evaluations = pixel conversions compared; non-trivial = conversions whose source pixel is "
               "neither all-zero nor all-one on its defined bits; outcomes = distinct destination rows.";
-    vf_bounds = th ? "all 2^bpp pixel values for bpp<=16 at every x offset 0..32/bpp+1; all 2^24 values of the 24-bpp formats; per-channel exhaustive sweeps (others 0/1s/0xaa/0x55, x bits swept) "
+    vf_bounds = th ? "all 2^bpp pixel values for bpp<=16 at every x offset 0..32/bpp+1; all 2^24 values of the 24-bpp formats (F<->a8r8g8b8, F->F; scanline and per-pixel; direct and accessors); per-channel exhaustive sweeps (others 0/1s/0xaa/0x55, x bits swept) "
                      "of all 32-bpp and 10-bit formats on all routes/access modes/accessors plus ALL 2^32 pixel values of every 32-bpp packed and 10-bit format for F->a8r8g8b8 and "
-                     "all 2^32 a8r8g8b8 values for a8r8g8b8->F (general chain, scanline); sRGB per channel; indexed c8/g8/c4/g4/g1 with two bijective palettes; YUV all 2^24 (Y,U,V); "
+                     "all 2^32 a8r8g8b8 values for a8r8g8b8->F into every 32-bpp packed format (general chain, scanline, direct); sRGB per channel; indexed c8/g8/c4/g4/g1 with two bijective palettes; YUV all 2^24 (Y,U,V); "
                      "chains default and general-only"
                    : "all 2^bpp pixel values for bpp<=16 at every x offset 0..32/bpp+1; per-channel exhaustive sweeps (others 0/1s/0xaa/0x55, x bits swept) for 24/32-bpp and 10-bit "
                      "formats; sRGB per channel; indexed c8/g8/c4/g4/g1 with two bijective palettes; YUV all Y x 12x12 boundary (U,V); chains default and general-only";
@@ -1029,13 +1030,15 @@ int main(int argc, char **argv)
         { yuv_ctx y = { cfg, th }; char nm[64]; snprintf(nm, sizeof nm, "yuv-%s", c10_cfg_names[cfg]); uint64_t nu = th ? 256 : 12; vf_space_run(nm, nu * nu * 2 * 2, yuv_case, &y); }
         { rgbf_ctx r = { cfg }; char nm[64]; snprintf(nm, sizeof nm, "rgb_float-%s", c10_cfg_names[cfg]); vf_space_run(nm, NMODES * 2, rgbf_case, &r); }
         if (th) {
-            run_layout_space("bpp24-full", cfg, 24, -1, VM_FULL, 12, ALLR, 1 << M_SCAN | 1 << M_TRANS, ALLA);
+            run_layout_space("bpp24-full", cfg, 24, -1, VM_FULL, 12, 1 << R_FETCH8 | 1 << R_STORE8 | 1 << R_SELF, 1 << M_SCAN | 1 << M_TRANS, ALLA);
         }
     }
     if (th) {
+        /* composites wider than 32767 pixels are refused by the library (16-bit extents), hence blocks of 2^14 values */
         c10_set_cfg(4);
-        run_layout_space("bpp32-full", 4, 32, CK_PACKED, VM_FULL, 16, 1 << R_FETCH8 | 1 << R_STORE8, 1 << M_SCAN, 1);
-        run_layout_space("bpp32-10bit-full", 4, 32, CK_WIDE10, VM_FULL, 16, 1 << R_FETCH8 | 1 << R_STORE8, 1 << M_SCAN, 1);
+        run_layout_space("bpp32-full-fetch", 4, 32, CK_PACKED, VM_FULL, 14, 1 << R_FETCH8, 1 << M_SCAN, 1);
+        run_layout_space("bpp32-full-store", 4, 32, CK_PACKED, VM_FULL, 14, 1 << R_STORE8, 1 << M_SCAN, 1);
+        run_layout_space("bpp32-10bit-full-fetch", 4, 32, CK_WIDE10, VM_FULL, 14, 1 << R_FETCH8, 1 << M_SCAN, 1);
     }
     snprintf(vf->extra_json, sizeof vf->extra_json,
              "\"conversions_by_route\": {\"fetch8\": %llu, \"store8\": %llu, \"self\": %llu, \"fetchf\": %llu, \"storef\": %llu}, "
